@@ -2,6 +2,7 @@
 mod capi;
 mod dbg;
 mod diff;
+mod exec;
 mod gl;
 mod goexec;
 mod goldens;
